@@ -28,6 +28,17 @@ def handleC16 : Handler := fun args =>
         toString (if len ≥ 20 then (hosts a len).length else hostsCount a len)
       else "bad-op"
     | _ => "bad-op"
+  | "auto" :: nets =>
+    -- a whole discovery run over several configured networks: every host address of EVERY configured network is
+    -- tried (as a sorted multiset: a host that lies in two configured networks is tried for each)
+    match nets.mapM (fun t => match t.splitOn "/" with
+        | [a, l] => match a.toNat?, l.toNat? with
+          | some a, some l => if a < two32 ∧ 20 ≤ l ∧ l ≤ 32 then some (a, l) else none
+          | _, _ => none
+        | _ => none) with
+    | some ns => natList ((ns.flatMap fun (a, l) => hosts a l).mergeSort (· ≤ ·))
+    | none => "bad-op"
+  | ["auto-cancelled", _] => "returned"
   | ["netsz", len] =>
     match len.toInt? with
     | some len => if Gen.driver_computeNetSz_safe len then toString (Gen.driver_computeNetSz len) else "panic"
